@@ -983,9 +983,6 @@ def alpha_compare(text_a, text_b):
     occurs in declarations matches any such name.  Any other difference is
     "structure" (no verdict)."""
     la, lb = _unit_lines(text_a), _unit_lines(text_b)
-    if len(la) != len(lb):
-        return {"status": "structure",
-                "detail": f"{len(la)} vs {len(lb)} statements"}
     fwd, bwd = {}, {}
     renamed = False
     later = []
